@@ -168,7 +168,7 @@ pub fn lib_spec(r: &mut Rng, variety: bool, idx: usize) -> ElfSpec {
         rodata_before_text: false,
         data_gap_pages: 0,
         link_base: 0,
-        text_sec_skip: 0,
+        text_sec_skip: 0, moved_tables: false,
     };
     if variety {
         match r.below(8) {
@@ -249,7 +249,7 @@ pub fn build_world(r: &mut Rng, cfg: &WorldCfg) -> Built {
         rodata_before_text: false,
         data_gap_pages: 0,
         link_base: 0,
-        text_sec_skip: 0,
+        text_sec_skip: 0, moved_tables: false,
     };
     let exe = elfgen::build(&exe_spec);
     if cfg.link_map {
@@ -465,7 +465,7 @@ pub fn build_world(r: &mut Rng, cfg: &WorldCfg) -> Built {
         rodata_before_text: false,
         data_gap_pages: 0,
         link_base: 0,
-        text_sec_skip: 0,
+        text_sec_skip: 0, moved_tables: false,
         };
         let img = elfgen::build(&spec);
         regions.push(RegionSpec {
